@@ -21,6 +21,44 @@ def load_check(pid):
         raise
 
 
+_ANCHORS = None
+
+
+def anchor_files(pid):
+    global _ANCHORS
+    if _ANCHORS is None:
+        _ANCHORS = {}
+        with open(os.path.join(VERIF, 'properties.jsonl')) as f:
+            for line in f:
+                p = json.loads(line)
+                _ANCHORS[p['id']] = [x for x in p.get('anchors', {}).get('files', []) if x.endswith('.py')]
+    return _ANCHORS.get(pid, [])
+
+
+def history_prepass(ctx, repo, pid):
+    """rule HIST, shared by every property except C16 (which has its own idiom table): the answers the property speaks
+    about are functions of the arguments, so no function of the property's anchor files may keep a memo that is not
+    transparent (sa/memo.py M1-M3) or change an entry of a shared table in place"""
+    if pid == 'C16':
+        return
+    from .memo import scan_files
+    files = [f for f in anchor_files(pid) if os.path.isfile(os.path.join(repo.root, f))]
+    res, n_fn = scan_files(repo, files)
+    ctx.rule('HIST', 'no function of the anchor files keeps a non-transparent memo (key = plain arguments, complete, stores what it '
+                     'returns) or changes an entry of a shared table in place')
+    seen = set()
+    for rel, q, rule, msg, node in res:
+        k = (rel, q, rule)
+        if k in seen:
+            continue
+        seen.add(k)
+        ctx.finding('HIST', '%s::%s::%s' % (rel, q, 'memo ' + rule if rule != 'ALIAS' else 'shared entry changed in place'), rel, node.lineno, msg,
+                    'the same function called twice in one process with inputs the memo key does not separate')
+    ctx.count('functions scanned for history dependence', n_fn)
+    if not res:
+        ctx.ok('HIST', '%d functions of %d anchor files: no opaque memo, no shared entry changed in place' % (n_fn, len(files)))
+
+
 def run_check(pid, tier, repo_root, seed, replay=None, quiet=False, evidence=True):
     mod = load_check(pid)
     if mod is None:
@@ -30,9 +68,14 @@ def run_check(pid, tier, repo_root, seed, replay=None, quiet=False, evidence=Tru
     level = getattr(mod, 'LEVEL', 'other')
     try:
         repo = Repo(repo_root)
+        history_prepass(ctx, repo, pid)
         mod.run(ctx, repo)
         ctx.check_floors()
     except AnalysisError as e:
+        if split_findings(ctx)[0]:
+            # the part of the analysis that ran already found new violations; the part that could not run is reported as a note
+            ctx.info('analysis incomplete: %s' % e)
+            return finish(ctx, pid, tier, repo_root, level, replay, quiet, evidence)
         print('ANALYSIS-ERROR property=%s %s' % (pid, e))
         try:
             if evidence:
@@ -49,6 +92,10 @@ def run_check(pid, tier, repo_root, seed, replay=None, quiet=False, evidence=Tru
         except Exception:
             pass
         return 2
+    return finish(ctx, pid, tier, repo_root, level, replay, quiet, evidence)
+
+
+def finish(ctx, pid, tier, repo_root, level, replay, quiet, evidence):
     new, kf, returned, absent_open = split_findings(ctx)
     if replay:
         with open(replay) as f:
